@@ -428,4 +428,29 @@ theorem inDomain_iff (p : Params) : MV.Spec.Backoff.inDomain p = true ↔ DomP p
   · rintro ⟨a, b, c, d, e, f, g, h⟩; exact ⟨a, b, c, d, e, f, g, h⟩
   · rintro ⟨a, b, c, d, e, f, g, h⟩; exact ⟨a, b, c, d, e, f, g, h⟩
 
+/-! ### the stop test -/
+
+open MV.Spec.Backoff in
+section
+/-- a limit is set and the count exceeds it -/
+def Stops (p : Params) : Prop := 0 ≤ p.limit ∧ p.limit < (p.count : Int)
+
+theorem stop_iff_Stops (p : Params) : stop p = true ↔ Stops p := by
+  unfold stop Stops; rw [decide_eq_true_iff]
+
+theorem backoff_of_stops (p : Params) (u : FVal) (h : Stops p) : backoff p u = -1 := by
+  unfold Stops at h
+  unfold backoff
+  have : (p.count : Int) > p.limit ∧ p.limit > -1 := by omega
+  rw [if_pos this]
+
+theorem backoff_of_not_stops (p : Params) (u : FVal) (h : ¬ Stops p) :
+    backoff p u = delay p.count p.base p.max p.mn p.md p.rn p.rd u := by
+  unfold Stops at h
+  unfold backoff
+  have : ¬ ((p.count : Int) > p.limit ∧ p.limit > -1) := by omega
+  rw [if_neg this]
+
+end
+
 end MV.Lemmas.Backoff
